@@ -2,6 +2,20 @@ package main
 
 func init() {
 	register(&PropertySpec{
+		ID: "C06",
+		Rules: []RuleSpec{
+			{"accept-dominators", "every acceptance check (index, state-root setting, header link/verification, Merkle root, per-transaction verification; header chain checks and witness against the previous NextConsensus) gates storeBlock / HeaderHashes.addHeaders on every CFG path", ruleAcceptDominators},
+		},
+		NotCovered: "that each check computes the right thing; witness VM semantics; that the correct block is still accepted afterwards",
+	})
+	register(&PropertySpec{
+		ID: "C07",
+		Rules: []RuleSpec{
+			{"admit-dominators", "every admission check of verifyAndPoolTx (script, expiry, VUB window, policy, size, network fee, on-chain/conflict record, witnesses with the remaining fee, attributes) gates pool.Add on every CFG path", ruleAdmitDominators},
+		},
+		NotCovered: "the exact fee threshold (arithmetic), witness costs, block packing sizes, proposal validity after a wire round trip",
+	})
+	register(&PropertySpec{
 		ID: "C08",
 		Rules: []RuleSpec{
 			{"tautology", "no comparison of a side-effect-free expression with itself anywhere in the module (==, Equals, Cmp, bytes.Equal, ...)", ruleTautology},
